@@ -916,3 +916,104 @@ Proof.
     split; [|rewrite Hcap; lia].
     split; [rewrite Hcap; cbn; lia|discriminate].
 Qed.
+
+(* ---------------------------------------------------------------------- *)
+(* reserve / extend_from_slice                                             *)
+
+Definition fixed_kind (k : kind) : bool :=
+  match k with KArray | KArrayVec | KPool => true | _ => false end.
+
+Fixpoint noendb (v : view) : bool :=
+  match v with
+  | VBase => true
+  | VSlice v _ None => noendb v
+  | VSlice _ _ (Some _) => false
+  | VUninit v _ => noendb v
+  end.
+
+Lemma canaries_from_length n : forall i, length (canaries_from i n) = n.
+Proof. induction n as [|n IH]; intros i; cbn [canaries_from length]; [reflexivity|]. rewrite IH. reflexivity. Qed.
+
+Lemma pow2_from_ge fuel : forall p n, n <= p * 2 ^ fuel -> n <= pow2_from fuel p n.
+Proof.
+  induction fuel as [|f IH]; intros p n H; cbn [pow2_from].
+  - cbn in H. lia.
+  - destruct (Nat.leb_spec n p); [assumption|]. apply IH. cbn [Nat.pow] in H. lia.
+Qed.
+
+Lemma next_pow2_ge n : n <= next_pow2 n.
+Proof.
+  unfold next_pow2. apply pow2_from_ge. pose proof (Nat.pow_gt_lin_r 2 n ltac:(lia)). lia.
+Qed.
+
+Lemma root_grow_props r newcap :
+  rlen r <= length (rcells r) -> rlen r <= newcap ->
+  rkind (root_grow r newcap) = rkind r /\ rlen (root_grow r newcap) = rlen r /\
+  rlim (root_grow r newcap) = rlim r /\
+  length (rcells (root_grow r newcap)) = newcap /\
+  firstn (rlen r) (rcells (root_grow r newcap)) = firstn (rlen r) (rcells r).
+Proof.
+  intros H1 H2. unfold root_grow. cbn [rkind rlen rlim rcells].
+  assert (Hf : length (firstn (rlen r) (rcells r)) = rlen r) by (rewrite firstn_length; lia).
+  repeat split.
+  - rewrite app_length, Hf, canaries_from_length. lia.
+  - apply firstn_app_exact0. exact Hf.
+Qed.
+
+(* IoBufMut::reserve on a root: fixed-capacity buffers answer Ok iff the request
+   fits into capacity - length and never change; growable ones make room; the
+   initialised bytes and the length are never touched *)
+Theorem root_reserve_spec r k :
+  rwf r ->
+  exists res r',
+    root_reserve k r = Ok (res, r') /\ rkind r' = rkind r /\ rlen r' = rlen r /\
+    firstn (rlen r) (rcells r') = firstn (rlen r) (rcells r) /\ rwf r' /\
+    (res = RsOk -> rlen r' + k <= rcap r') /\
+    (fixed_kind (rkind r) = true -> r' = r /\ (res = RsOk <-> k <= rcap r - rlen r)) /\
+    (fixed_kind (rkind r) = false -> res = RsOk).
+Proof.
+  intros [Hlc Harr]. unfold root_reserve.
+  assert (G : forall newcap, fixed_kind (rkind r) = false -> rlen r + k <= newcap ->
+     exists res r', Ok (RsOk, root_grow r newcap) = Ok (res, r') /\ rkind r' = rkind r /\ rlen r' = rlen r /\
+       firstn (rlen r) (rcells r') = firstn (rlen r) (rcells r) /\ rwf r' /\
+       (res = RsOk -> rlen r' + k <= rcap r') /\
+       (fixed_kind (rkind r) = true -> r' = r /\ (res = RsOk <-> k <= rcap r - rlen r)) /\
+       (fixed_kind (rkind r) = false -> res = RsOk)).
+  { intros newcap Hfx Hn. pose proof (rcap_le_cells r) as Hc.
+    destruct (root_grow_props r newcap ltac:(lia) ltac:(lia)) as (K & L & M & C & F).
+    assert (Hcap : rcap (root_grow r newcap) = newcap).
+    { unfold rcap. rewrite K, C. destruct (rkind r); try reflexivity; discriminate. }
+    exists RsOk, (root_grow r newcap). split; [reflexivity|]. split; [exact K|]. split; [exact L|].
+    split; [exact F|]. split.
+    { split; [rewrite L, Hcap; lia|]. rewrite K. intros KA. rewrite KA in Hfx. discriminate. }
+    split; [intros _; rewrite L, Hcap; lia|]. split; [intros H; rewrite H in Hfx; discriminate|reflexivity]. }
+  assert (Same : forall res, (res = RsOk -> k <= rcap r - rlen r) ->
+     (fixed_kind (rkind r) = true -> (res = RsOk <-> k <= rcap r - rlen r)) ->
+     (fixed_kind (rkind r) = false -> res = RsOk) ->
+     exists res0 r', Ok (res, r) = Ok (res0, r') /\ rkind r' = rkind r /\ rlen r' = rlen r /\
+       firstn (rlen r) (rcells r') = firstn (rlen r) (rcells r) /\ rwf r' /\
+       (res0 = RsOk -> rlen r' + k <= rcap r') /\
+       (fixed_kind (rkind r) = true -> r' = r /\ (res0 = RsOk <-> k <= rcap r - rlen r)) /\
+       (fixed_kind (rkind r) = false -> res0 = RsOk)).
+  { intros res H1 H2 H3. exists res, r. repeat split; auto; try (intros; specialize (H1 ltac:(assumption)); lia);
+      try (apply H2; assumption). }
+  destruct (rkind r) eqn:K; cbn [fixed_kind] in *.
+  - destruct (Nat.leb_spec k (rcap r - rlen r)).
+    + apply Same; try tauto; intros; try discriminate; reflexivity.
+    + apply G; [reflexivity|unfold grow_vec; lia].
+  - unfold usub. destruct (Nat.leb_spec (rlen r) (rcap r)); [|lia]. cbn [rbind].
+    destruct (Nat.leb_spec k (rcap r - rlen r)); apply Same; intros; try discriminate; try tauto; try lia;
+      split; intros; try discriminate; try lia; reflexivity.
+  - unfold usub. destruct (Nat.leb_spec (rlen r) (rcap r)); [|lia]. cbn [rbind].
+    destruct (Nat.leb_spec k (rcap r - rlen r)); apply Same; intros; try discriminate; try tauto; try lia;
+      split; intros; try discriminate; try lia; reflexivity.
+  - destruct (Nat.leb_spec k (rcap r - rlen r)).
+    + apply Same; try tauto; intros; try discriminate; reflexivity.
+    + apply G; [reflexivity|apply next_pow2_ge].
+  - destruct (Nat.leb_spec k (rcap r - rlen r)).
+    + apply Same; try tauto; intros; try discriminate; reflexivity.
+    + apply G; [reflexivity|unfold grow_vec; lia].
+  - unfold usub. destruct (Nat.leb_spec (rlen r) (rcap r)); [|lia]. cbn [rbind].
+    destruct (Nat.leb_spec k (rcap r - rlen r)); apply Same; intros; try discriminate; try tauto; try lia;
+      split; intros; try discriminate; try lia; reflexivity.
+Qed.
